@@ -40,7 +40,7 @@ func explicitNonceLen(version, suite uint16) int {
 
 // C28 — GetOutKeystream returns the keystream of the next record.
 func TestC28(t *testing.T) {
-	r := mon.New("C28", "every AEAD suite x {TLS 1.2, 1.3} (suites forced through the server hooks where needed) x keystream lengths {0,1,15,16,17,1000,16384,20000} x sequence positions (0..40 records already written, a different number read, so that in/out sequence numbers differ) x dynamic record sizing on/off: ks=GetOutKeystream(n), then Write(p); the first application-data record tapped afterwards must satisfy ciphertext[explicit nonce:][:m] == p[:m] XOR ks[:m], m=min(n, record plaintext length); the peer reads p unchanged and later traffic still works; non-AEAD suites must return an error. distinct = (version, suite, n, position bucket)")
+	r := mon.New("C28", "every AEAD suite x {TLS 1.2, 1.3} (suites forced through the server hooks where needed) x keystream lengths {0,1,15,16,17,1000,16384,20000} x sequence positions (0..40 records already written, a different number read, so that in/out sequence numbers differ; a third of the runs jump to 2^16-1 / 2^24 / 2^32 / 2^48 / 2^63-5 with a hook) x dynamic record sizing on/off: ks=GetOutKeystream(n), then Write(p); the first application-data record tapped afterwards must satisfy ciphertext[explicit nonce:][:m] == p[:m] XOR ks[:m], m=min(n, record plaintext length); the peer reads p unchanged and later traffic still works; non-AEAD suites must return an error. distinct = (version, suite, n, position bucket)")
 	defer r.Finish(t)
 	type combo struct {
 		v, suite uint16
@@ -118,6 +118,22 @@ func TestC28(t *testing.T) {
 			}
 		}
 		rep["records_written_before"], rep["records_read_before"] = a, b
+		if j.rep%3 == 1 {
+			// jump to a far sequence position (client write = server read, and vice versa): the
+			// boundaries of 16-, 24-, 32- and 48-bit counters and a value close to the end
+			pos := []uint64{1<<16 - 1, 1<<24 - 2, 1 << 24, 1<<32 - 1, 1 << 32, 1 << 48, 1<<63 - 5}[rg.Intn(7)]
+			// first drain what the server already sent (TLS 1.3 session tickets are still in flight
+			// when nothing was read yet): the counters may only be moved on a quiet connection
+			if err := oneWayRW(h.Server, h.Client, 5); err != nil {
+				r.Count("setup_failed", 1)
+				return
+			}
+			pos2 := uint64(b) + uint64(rg.Intn(5))<<20
+			tls.VerifSetSeq(h.Client.Conn, pos2, pos)
+			tls.VerifSetSeq(h.Server, pos, pos2)
+			rep["sequence_position"] = pos
+			r.Count("far_sequence_positions", 1)
+		}
 		probe := func(round string) bool {
 			sig["round"] = round
 			ks, err := h.Client.GetOutKeystream(j.n)
